@@ -386,14 +386,16 @@ def real_runs(tier, param, replay_model=None):
     try:
         f = os.path.join(d, 'real_main.py'); open(f,'w').write(REAL)
         env = dict(os.environ); env['PYTHONPATH'] = os.environ.get('VERIF_REPO','/repo')
-        try:
-            out = subprocess.run([sys.executable, '-W', 'ignore', f, json.dumps(param)], capture_output=True, text=True, timeout=90, env=env, cwd=d)
-            line = next((l for l in out.stdout.splitlines() if l.startswith('RESULT')), None)
-            r = json.loads(line[6:]) if line else {'hang': True, 'stderr': out.stderr[-300:]}
-        except subprocess.TimeoutExpired:
-            r = {'hang': True}
+        for attempt in range(2):          # a run that does not come back is repeated once: only a hang seen twice is reported (a loaded machine can starve one run)
+            try:
+                out = subprocess.run([sys.executable, '-W', 'ignore', f, json.dumps(param)], capture_output=True, text=True, timeout=90, env=env, cwd=d)
+                line = next((l for l in out.stdout.splitlines() if l.startswith('RESULT')), None)
+                r = json.loads(line[6:]) if line else {'hang': True, 'stderr': out.stderr[-300:]}
+            except subprocess.TimeoutExpired:
+                r = {'hang': True}
+            if not r.get('hang'): break
         problems = []
-        if r.get('hang'): problems.append(f"the call did not terminate within 40 s ({r.get('stderr','')})")
+        if r.get('hang'): problems.append(f"the call did not terminate within 40 s in two attempts ({r.get('stderr','')})")
         else:
             items = list(range(param['items']))
             if param.get('bad') is not None:
